@@ -35,7 +35,7 @@ STAT_NAMES = [
     "deadline_exactly_tight", "some_task_placed", "second_worker_used",
 ]
 GUROBI_POLICIES = ("ILP", "ILP_RTG", "TSG")
-MODEL_POLICIES = GUROBI_POLICIES + ("Z3",)
+MODEL_POLICIES = GUROBI_POLICIES + ("Z3", "TSC")
 SPEC_TASK_FIELDS = ("state", "release", "deadline", "strats", "parents", "fin", "cur", "offered", "dec", "must", "dlenf")
 
 
@@ -274,8 +274,10 @@ class Capture:
     """Wraps gurobipy.Model.optimize / z3.Optimize.check / docplex Model.solve while active and
     keeps the model objects the schedulers hand to the solver."""
 
-    def __init__(self):
-        self.gurobi, self.z3 = [], []
+    def __init__(self, cplex=False):
+        self.gurobi, self.z3, self.cplex = [], [], []
+        self._want_cplex = cplex
+        self._cs = None
 
     def __enter__(self):
         import gurobipy as gp
@@ -301,11 +303,25 @@ class Capture:
 
         gp.Model.optimize = optimize
         z3mod.Optimize.check = check
+        if self._want_cplex:
+            import docplex.mp.model as cpx
+
+            self._cpx = cpx
+            self._cs = cpx.Model.solve
+
+            def solve(mdl, *a, **k):
+                # TetriSchedCPLEXScheduler calls optimizer.end() before returning: keep a clone
+                cap.cplex.append(mdl.clone())
+                return cap._cs(mdl, *a, **k)
+
+            cpx.Model.solve = solve
         return self
 
     def __exit__(self, *a):
         self._gp.Model.optimize = self._go
         self._z3.Optimize.check = self._zc
+        if self._cs is not None:
+            self._cpx.Model.solve = self._cs
 
 
 _QUIET_DONE = False
@@ -359,7 +375,7 @@ def realize(inst):
     handle = {"world": world, "sched": sched, "model": None, "kind": None}
     dec = [{"kind": "none", "w": 0, "s": 0, "k": 0} for _ in inst["tasks"]]
     out = io.StringIO()
-    with Capture() as cap:
+    with Capture(cplex=(pol == "TSC")) as cap:
         try:
             with contextlib.redirect_stdout(out):
                 placements = sched.schedule(us(inst["now"]), world.workload, world.pools)
@@ -408,6 +424,8 @@ def realize(inst):
         handle["model"], handle["kind"] = cap.gurobi[-1], "gurobi"
     elif pol == "Z3" and cap.z3:
         handle["model"], handle["kind"] = cap.z3[-1], "z3"
+    elif pol == "TSC" and cap.cplex:
+        handle["model"], handle["kind"] = cap.cplex[-1], "cplex"
     return inst, dec, info, handle
 
 
@@ -642,10 +660,66 @@ class Z3View:
         return out
 
 
+class CplexView:
+    """the space-time cells of a captured (cloned) TetriSched-CPLEX model; R only (no pool)"""
+
+    def __init__(self, inst, handle):
+        self.inst, self.world = inst, handle["world"]
+        self.m = handle["model"]
+        self.m.context.cplex_parameters.threads = 1
+        self.dtasks = [ti + 1 for ti, t in enumerate(inst["tasks"]) if t["dec"]]
+        self.x = {}
+        w = self.world
+        for t in self.dtasks:
+            un = w.tasks[t - 1].unique_name
+            pat = re.compile(re.escape(un) + r"_placed_at_Worker_(\d+)_on_Time_(-?\d+)_with_strategy_(.+)$")
+            sid = {s.id: k for k, s in enumerate(w.strats[t - 1], 1)}
+            self.x[t] = {}
+            for v in self.m.iter_variables():
+                mm = pat.match(v.name or "")
+                if mm and mm.group(3) in sid:
+                    self.x[t][(int(mm.group(1)), int(mm.group(2)), sid[mm.group(3)])] = v
+
+    def in_model(self):
+        return any(self.x[t] for t in self.dtasks)
+
+    def feasible(self, d):
+        touched = []
+        try:
+            for t in self.dtasks:
+                p, w, s, k = d[t - 1]
+                if p < 0:
+                    continue
+                key = (w, s, k) if p == 1 else None
+                if p == 1 and key not in self.x[t]:
+                    return False  # no such cell: the model cannot express the plan
+                for kk, v in self.x[t].items():
+                    val = 1 if kk == key else 0
+                    touched.append((v, v.lb, v.ub))
+                    v.lb, v.ub = (val, val) if val else (0, 0)
+                    if val:
+                        v.ub, v.lb = 1, 1
+            sol = self.m.solve()
+            if sol is not None:
+                return True
+            st = str(self.m.solve_details.status).lower()
+            if "infeasible" in st:
+                return False
+            raise tlc.TLCMachineryError(f"cplex status {st!r} on a fixed plan of {self.inst['name']}")
+        finally:
+            for v, lo, hi in touched:
+                v.lb, v.ub = 0, 1
+                v.lb, v.ub = lo, hi
+
+    def pool(self, cap, passes=1, seed=0, time_limit=3):
+        return []
+
+
 def view_of(inst, handle):
     if handle.get("model") is None:
         return None
-    v = GurobiView(inst, handle) if handle["kind"] == "gurobi" else Z3View(inst, handle)
+    kind = handle["kind"]
+    v = GurobiView(inst, handle) if kind == "gurobi" else Z3View(inst, handle) if kind == "z3" else CplexView(inst, handle)
     return v if v.in_model() else None
 
 
@@ -711,6 +785,27 @@ def judge_records(recs, timeout=900):
     if st is None:
         raise tlc.TLCMachineryError("no statistics line from the record run")
     return fails, list(st), r
+
+
+def _judge_job(recs, timeout):
+    fails, st, r = judge_records(recs, timeout=timeout)
+    return fails, st, {"distinct": r.distinct, "generated": r.generated, "wall_s": round(r.wall_s, 2)}
+
+
+def judge_parallel(recs, batch=4000, procs=8, timeout=3000):
+    """judge_records over batches in forked children.  Returns (fails, stats, [tlc run summaries])."""
+    from .common import parallel
+
+    if not recs:
+        return {}, [0] * len(STAT_NAMES), []
+    parts = [recs[i:i + batch] for i in range(0, len(recs), batch)]
+    outs = parallel(_judge_job, [(p, timeout) for p in parts], procs=procs)
+    fails, stats, runs = {}, [0] * len(STAT_NAMES), []
+    for f, st, r in outs:
+        fails.update(f)
+        stats = [a + b for a, b in zip(stats, st)]
+        runs.append(r)
+    return fails, stats, runs
 
 
 def enumerate_plans(insts, rule, timeout=600, agree=False):
@@ -856,6 +951,12 @@ def run_chunk(tag, insts, rule, cfg):
                 "name": inst2["name"], "inst": inst2, "enumerated": len(ps), "checked": len(sel), "complete": complete,
                 "admitted": admitted[:5], "n_admitted": len(admitted),
             })
+    if cfg.get("agree_small", 0) > 0:
+        # the incremental enumeration against the set definition PlansViolatingOnly, on small decision spaces
+        small = [real[i][0] for i in elig if options_product(real[i][0]) <= cfg["agree_small"]][:2]
+        if small:
+            enumerate_plans(small, rule, timeout=cfg.get("tlc_timeout", 600), agree=True)
+            cnt["enumeration_cross_checked"] = cnt.get("enumeration_cross_checked", 0) + len(small)
     out["timing"]["r_s"] = round(time.time() - t2, 2)
     out["timing"]["total_s"] = round(time.time() - t0, 2)
     # handles / views hold solver objects: not returned
